@@ -27,10 +27,11 @@ class SymRaise(Exception):
 
 class SymVal:
     """scalar backed by a z3 term; sort in {'int','bool','str'}"""
-    __slots__ = ('sort', 't')
+    __slots__ = ('sort', 't', 'optional_obj')
 
     def __init__(self, sort, t):
         self.sort, self.t = sort, t
+        self.optional_obj = False          # True: the Bool stands for `object or None` (a regex match): `x is None` is its negation
 
     def __repr__(self):
         return f'<{self.sort}:{self.t}>'
